@@ -238,9 +238,17 @@ impl Move {
 
             if let Some(piece) = game.get_position(start) {
                 // This move is either en passant or normal
+                // En passant goes from the fifth to the sixth rank of the capturing side; the
+                // move only stores the columns, so any other rows would be read as that capture
+                let (en_passant_start_row, en_passant_end_row) = match game.current_player {
+                    Player::White => (4, 5),
+                    Player::Black => (3, 2),
+                };
                 return if piece.piece_type == PieceType::Pawn
                     && game.get_position(end).is_none()
                     && i8::abs(start.col() - end.col()) == 1
+                    && start.row() == en_passant_start_row
+                    && end.row() == en_passant_end_row
                 {
                     Some(Self::EnPassant {
                         owner: game.current_player,
